@@ -106,6 +106,8 @@ type EvalBinaryNode struct {
 
 	// Operand types the current evaluationFn was looked up for.
 	fnLeftType, fnRightType ast.ValueType
+	// Whether an operand contains a function call.
+	hasStatefulOperand bool
 
 	// Constant return type
 	// If InvalidType then this node is dynamic.
@@ -130,6 +132,8 @@ func NewEvalBinaryNode(node *ast.BinaryNode) (*EvalBinaryNode, error) {
 	if err != nil {
 		return nil, fmt.Errorf("Failed to handle right node: %v", err)
 	}
+
+	b.hasStatefulOperand = containsFunctionNode(node.Left) || containsFunctionNode(node.Right)
 
 	b.leftEvaluator = leftSideEvaluator
 
@@ -287,15 +291,19 @@ func (e *EvalBinaryNode) actualType(result resultContainer) ast.ValueType {
 }
 
 func (e *EvalBinaryNode) eval(scope *Scope, executionState ExecutionState) (resultContainer, *ErrSide) {
-	if e.evaluationFn == nil && scope != nil {
-		// No function matched the operand types of an earlier evaluation.
-		// Operand types can change from one evaluation to the next, so look
-		// again with the current types before reporting a mismatch.
+	if scope != nil && (e.evaluationFn == nil || e.hasStatefulOperand) {
+		// Operand types can change from one evaluation to the next. Settle them before
+		// evaluating when no function matched the types seen last time (otherwise the
+		// node would stay broken for good), and when an operand calls a function: the
+		// retry below evaluates the left operand a second time, which would advance
+		// stateful functions (count, sigma, ...) twice for one point.
 		if leftType, err := e.leftEvaluator.Type(scope); err == nil {
 			if rightType, err := e.rightEvaluator.Type(scope); err == nil {
 				e.leftType = leftType
 				e.rightType = rightType
-				e.evaluationFn = e.lookupEvaluationFn()
+				if e.evaluationFn == nil || leftType != e.fnLeftType || rightType != e.fnRightType {
+					e.evaluationFn = e.lookupEvaluationFn()
+				}
 			}
 		}
 	}
@@ -481,4 +489,19 @@ func operatorKind(operator ast.TokenType) string {
 	// Actually, we shouldn't get here.. because this function is called only
 	// after the operator validation!
 	return "INVALID"
+}
+
+// containsFunctionNode reports whether the expression calls a function.
+func containsFunctionNode(n ast.Node) bool {
+	switch node := n.(type) {
+	case *ast.FunctionNode:
+		return true
+	case *ast.BinaryNode:
+		return containsFunctionNode(node.Left) || containsFunctionNode(node.Right)
+	case *ast.UnaryNode:
+		return containsFunctionNode(node.Node)
+	case *ast.LambdaNode:
+		return containsFunctionNode(node.Expression)
+	}
+	return false
 }
